@@ -217,10 +217,17 @@ fn parse_source(
 
     debug!("parsing file `{}`", file_path.display());
     let program = parser_logic::parse_file(&file_content, file_id)?;
-    // A report about the version pragma concerns this file (only): it is located at the start
-    // of the file, so that it is filtered like any other finding of the file.
+    // A report about the version pragma concerns this file (only): it is located at the pragma
+    // (at the start of the file, if there is none), so that it is filtered like any other
+    // finding of the file.
+    let version_location = program.compiler_version_meta.as_ref().map(|meta| meta.file_location());
     let located = |mut report: Report| {
-        report.add_primary(0..0, file_id, "The file starts here.".to_string());
+        match &version_location {
+            Some(location) => {
+                report.add_primary(location.clone(), file_id, "The version is required here.".to_string())
+            }
+            None => report.add_primary(0..0, file_id, "The file starts here.".to_string()),
+        };
         report
     };
     match check_compiler_version(file_path, program.compiler_version, compiler_version) {
